@@ -70,4 +70,35 @@ theorem isEmpty_iff_of_shape {r : Ring} (h : Shape r) (self base alloc : Nat) :
   simp only [AwsVerif.Gen.Ring.isEmpty, rbOf, beq_iff_eq]
   omega
 
+/-- the `aws_byte_buf` handle of the buffer `(off, len)` of a ring whose storage starts at `base` -/
+def bufOf (base : Nat) (b : Nat × Nat) : AwsVerif.Gen.Ring.Buf := { buffer := base + b.1, capacity := b.2 }
+
+/-- the generated `s_buf_belongs_to_pool`, for any handle whatsoever: non-NULL and inside `[allocation, allocation_end]` -/
+theorem belongs_iff (r : Ring) (self base alloc : Nat) (x : AwsVerif.Gen.Ring.Buf) :
+    AwsVerif.Gen.Ring.bufBelongsToPool (rbOf r self base alloc) x = true ↔
+      x.buffer ≠ 0 ∧ base ≠ 0 ∧ base + r.N ≠ 0 ∧ base ≤ x.buffer ∧ x.buffer + x.capacity ≤ base + r.N := by
+  simp only [AwsVerif.Gen.Ring.bufBelongsToPool, rbOf, Bool.and_eq_true, bne_iff_ne, decide_eq_true_eq, ne_eq, ge_iff_le]
+  constructor
+  · rintro ⟨⟨⟨⟨a, b⟩, c⟩, d⟩, e⟩; exact ⟨a, b, c, d, of_decide_eq_true e⟩
+  · rintro ⟨a, b, c, d, e⟩; exact ⟨⟨⟨⟨a, b⟩, c⟩, d⟩, decide_eq_true e⟩
+
+/-- for handles of the ring's own storage: belongs ⇔ the buffer ends inside the ring -/
+theorem belongs_bufOf_iff (r : Ring) (self base alloc : Nat) (hb : base ≠ 0) (b : Nat × Nat) :
+    AwsVerif.Gen.Ring.bufBelongsToPool (rbOf r self base alloc) (bufOf base b) = true ↔ b.1 + b.2 ≤ r.N := by
+  rw [belongs_iff]
+  simp only [bufOf]
+  omega
+
+/-- the model's `release` publishes exactly the address the C stores: `buf->buffer + buf->capacity` -/
+theorem release_tail_eq (r : Ring) (base : Nat) (b : Nat × Nat) (rest : List (Nat × Nat)) (h : r.out = b :: rest) :
+    base + (release r).tail = AwsVerif.Gen.Ring.releaseTail (bufOf base b) ∧ (release r).out = rest ∧
+      (release r).head = r.head ∧ (release r).N = r.N := by
+  obtain ⟨off, len⟩ := b
+  have e : release r = { r with tail := off + len, out := rest } := by
+    simp only [release, h]
+  rw [e]
+  refine ⟨?_, rfl, rfl, rfl⟩
+  simp only [AwsVerif.Gen.Ring.releaseTail, bufOf]
+  omega
+
 end AwsVerif.Proofs.C15
